@@ -271,6 +271,11 @@ func executeOneStep(
 	stripNode := step.ParentType != typeNameQuery && step.ParentType != typeNameSubscription && step.ParentType != typeNameMutation
 	if stripNode {
 		ctx.logger.Debug("Should strip node")
+		// a service that answers without an object for the id (and without an error of its own) would
+		// otherwise leave the fields it owes silently missing from the response
+		if node, ok := queryResult["node"]; (!ok || node == nil) && queryErr == nil {
+			return nil, nil, fmt.Errorf("service returned no object for node %v", variables["id"])
+		}
 		// get the result from the response that we have to stitch there
 		extractedResult, err := executorExtractValue(ctx, queryResult, resultLock, []string{"node"})
 		if err != nil {
